@@ -981,6 +981,12 @@ class FnAnalysis:
         for s, v in self.eval(c, st):
             if s.ctrl is not None:
                 continue
+            known = _const_truth(v)
+            if known is not None:
+                # a comparison of two constants: only one branch is feasible
+                self.ev(s, "decide", c, how="if", outcome=known, cond=v, cond_node=c, folded=True)
+                outs.append((s, known))
+                continue
             s_no = s.fork()
             self.ev(s_no, "decide", c, how="if", outcome=False, cond=v, cond_node=c)
             outs.append((s_no, False))
@@ -1249,6 +1255,15 @@ class FnAnalysis:
             for src in self.havoc_src.get(a, ()):
                 work.extend(leaves(src))
         return seen
+
+
+def _const_truth(v):
+    if isinstance(v, tuple) and v and v[0] == "bin" and v[1] in ("==", "!=", "<", "<=", ">", ">=") and v[2][0] == "c" and v[3][0] == "c":
+        a, b = v[2][1], v[3][1]
+        return {"==": a == b, "!=": a != b, "<": a < b, "<=": a <= b, ">": a > b, ">=": a >= b}[v[1]]
+    if isinstance(v, tuple) and v and v[0] == "lit" and v[1] == "bool" and isinstance(v[2], bool):
+        return v[2]
+    return None
 
 
 def _is_full_range(t):
